@@ -9,10 +9,11 @@ import torch
 from jaxtyping import Float
 from torch import Tensor
 
-from linear_operator.operators._linear_operator import LinearOperator
+from linear_operator.operators._linear_operator import IndexType, LinearOperator
 from linear_operator.operators.root_linear_operator import RootLinearOperator
 from linear_operator.operators.triangular_linear_operator import _TriangularLinearOperatorBase, TriangularLinearOperator
 
+from linear_operator.utils.getitem import _is_noop_index
 from linear_operator.utils.memoize import cached
 
 
@@ -83,6 +84,21 @@ class CholLinearOperator(RootLinearOperator):
         if len(batch_shape) == 0:
             return self
         return self.__class__(self.root._expand_batch(batch_shape), upper=self.upper)
+
+    def _as_root_linear_operator(self) -> RootLinearOperator:
+        # L L^T = (L)(L)^T and R^T R = (R^T)(R^T)^T: a plain root form, for operations that do not
+        # preserve the triangular structure of the factor
+        return RootLinearOperator(self.root._transpose_nonbatch() if self.upper else self.root)
+
+    def _get_indices(self, row_index: IndexType, col_index: IndexType, *batch_indices: IndexType) -> torch.Tensor:
+        return self._as_root_linear_operator()._get_indices(row_index, col_index, *batch_indices)
+
+    def _getitem(self, row_index: IndexType, col_index: IndexType, *batch_indices: IndexType) -> LinearOperator:
+        if _is_noop_index(row_index) and _is_noop_index(col_index):
+            # Only batch indexing: the factor stays triangular
+            return self.__class__(self.root._getitem(row_index, col_index, *batch_indices), upper=self.upper)
+        # Rows/columns of the factor are no longer a Cholesky factor of the selected block
+        return self._as_root_linear_operator()._getitem(row_index, col_index, *batch_indices)
 
     def _solve(
         self: Float[LinearOperator, "... N N"],
